@@ -63,6 +63,9 @@ def configs(tier):
                         continue
                     rate = 1.0 if (b + half) % 2 == 0 else 2.0
                     out.append({'kind': 'ccg', 'n': n, 'ids': ids, 'bin': b, 'half': half, 'rate': rate})
+    for n in (2, 3):
+        for b, half in ((1, 1), (2, 2)):
+            out.append({'kind': 'ccg', 'n': n, 'ids': [3, 0], 'bin': b, 'half': half, 'rate': 3.0, 'f32': True})
     for n in range(0, 4):
         for ids in ([0], [3, 0], [1, 3, 0], None):
             for dur in (None, 10.0):
@@ -70,17 +73,23 @@ def configs(tier):
     return out
 
 
+# single-precision spike times late in a long recording (time * rate above 2**24): the symbolic run is exact
+# arithmetic, the replays on real NumPy see the float32 values
+F32_BASE = 2 ** 24 + 100
+
+
 def _inputs(e, cfg):
     n, ids, rate = cfg['n'], cfg['ids'], cfg.get('rate', 1.0)
     ks = []
-    prev = 0
+    base = F32_BASE if cfg.get('f32') else 0
+    prev = base
     for i in range(n):
-        k = e.int('k%d' % i, 0)
+        k = e.int('k%d' % i, base)
         e.assume(k >= prev)
         prev = k
         ks.append(k)
     if ks:
-        e.prefer.append(ks[-1] <= 12)
+        e.prefer.append(ks[-1] <= base + 12)
     alphabet = ids if ids is not None else [0, 1, 3]
     labs = []
     for i in range(n):
@@ -88,7 +97,8 @@ def _inputs(e, cfg):
         e.assume(sor(*[l == a for a in alphabet]))
         labs.append(l)
     r = z3.RealVal(str(rate))
-    times = snp.ndarray(snp._fromlist([SymReal(z3.ToReal(k.term) / r) for k in ks], (n,)), 'float64')
+    times = snp.ndarray(snp._fromlist([SymReal(z3.ToReal(k.term) / r) for k in ks], (n,)),
+                        'float32' if cfg.get('f32') else 'float64')
     sc = snp.ndarray(snp._fromlist(labs, (n,)), 'int64')
     return ks, labs, times, sc
 
@@ -198,6 +208,10 @@ def replay(case):
         return None if F.shape == W.shape and np.allclose(F, W) else 'firing_rate %s expected %s' % (F.tolist(), W.tolist())
     b, half, rate = case['bin'], case['half'], case['rate']
     times = np.array(ks, dtype=np.float64) / rate
+    if case.get('f32'):
+        times = times.astype(np.float32)
+        # the instants the caller actually passed, in samples
+        ks = (times.astype(np.float64) * rate).astype(np.int64).tolist()
     bin_size = b / rate
     window = 2 * half * bin_size
     try:
